@@ -320,13 +320,14 @@ func calcParticipant(vrf vconfig.VRFValue, dposTable []uint32, k uint32) uint32 
 //		@ consensused for empty commit
 //
 func getCommitConsensus(commitMsgs []*blockCommitMsg, C int, N int) (uint32, bool) {
-	emptyCommitCount := 0
+	emptyCommitters := make(map[uint32]bool)
 	emptyCommit := false
 	signCount := make(map[uint32]map[uint32]int)
 	for _, c := range commitMsgs {
 		if c.CommitForEmpty {
-			emptyCommitCount++
-			if emptyCommitCount > C && !emptyCommit {
+			// count committers, not messages: one participant repeating its vote must not count twice
+			emptyCommitters[c.Committer] = true
+			if len(emptyCommitters) > C && !emptyCommit {
 				C += 1
 				emptyCommit = true
 			}
